@@ -502,6 +502,7 @@ SCALARS = {
     "float": float, "np-float64": lambda x: np.float64(x), "np-float32": lambda x: np.float32(x),
 }   # complex outputs are not a form of "integer outputs" (max() has no order on them: TypeError) -- not generated
 OPTFORMS = ("none", "empty", "none-key", "N", "N-extra-key", "N-np-int64", "N-float", "reused-dict")
+NFORMS = {"N": "int", "N-np-int64": "np.int64", "N-np-int32": "np.int32", "N-float": "float", "N-np-float64": "np.float64"}   # forms of the number N
 DIV_HOWS = ("ctor", "ctor-label", "copy-before-def", "def-then-copy", "append-twice", "static-none", "static-ints",
             "static-qubit-objs", "static-registers")
 
@@ -532,6 +533,10 @@ def _div_opt(N, optform):
         return {"n_output_values": np.int64(N)}, N
     if optform == "N-float":
         return {"n_output_values": float(N)}, N
+    if optform == "N-np-int32":
+        return {"n_output_values": np.int32(N)}, N
+    if optform == "N-np-float64":
+        return {"n_output_values": np.float64(N)}, N
     return {"n_output_values": N}, N
 
 
@@ -581,6 +586,12 @@ def div_build(params, opt, how, w, wires=None, reuse=None):
     elif how == "static-ints":
         host = QuantumCircuit(w + 2)
         FnPointsInitialize.initialize(host, params, qubits=list(wires), opt_params=opt)
+    elif how == "static-pos-ints":                     # every argument positional: initialize(q_circuit, state, qubits, opt_params)
+        host = QuantumCircuit(w + 2)
+        FnPointsInitialize.initialize(host, params, list(wires), opt)
+    elif how == "ctor-pos":                            # FnPointsInitialize(params, label, opt_params)
+        g = FnPointsInitialize(params, None, opt)
+        return g, g.definition, None, None
     elif how == "static-qubit-objs":
         host = QuantumCircuit(QuantumRegister(2, "a"), QuantumRegister(w, "b"))
         FnPointsInitialize.initialize(host, params, qubits=[host.qubits[i] for i in wires], opt_params=opt)
@@ -599,7 +610,7 @@ def div_build(params, opt, how, w, wires=None, reuse=None):
 def _div_wires(rng, how, w):
     if how == "append-twice":
         return rng.sample(range(w, 2 * w), w)
-    if how in ("static-ints", "static-qubit-objs"):
+    if how in ("static-ints", "static-qubit-objs", "static-pos-ints"):
         ws = rng.sample(range(w + 2), w)
         return ws[::-1] if ws == sorted(ws) else ws
     return None
@@ -662,6 +673,12 @@ def div_case(ctx, name, keys, svals, N, stype="int", container="dict", optform="
                       f"closed form| = {err:.3e}; host: {herr:.3e}", dict(rep, observed_err=max(err, herr)))
     else:
         ctx.ok(key, nontrivial=m >= 2 and any(x != 0 for x in svals), sample={"n": n, "m": m, "N": N, "err": err})
+        if name.startswith("flagforms"):
+            if optform in NFORMS:
+                ctx.count(f"flagforms:n_output_values:{NFORMS[optform]}")
+                ctx.count(f"flagforms:n_output_values:{NFORMS[optform]}:{N}:via {how}")
+            if not any(svals):
+                ctx.count(f"flagforms:output-value:{stype}:all-zero:via {how}")
 
 
 def _diversity_cases(ctx):
@@ -749,6 +766,30 @@ def _diversity_cases(ctx):
                     reuse = (dict(zip(pts(n, 2), [0, 12])), N + 4)       # earlier construction: other points, larger N, larger max s
                 div_case(ctx, "option form x call form", keys, sv, N, optform=optform, how=how,
                          wires=_div_wires(r, how, 2 * n + 1), reuse=reuse)
+    # ---- 6. n_output_values at its FALSY value 0 (the property's N' = max(N, max s - 1) then is max s - 1; needs max s >= 2), at 1 and 2,
+    #         in every numeric form (int / numpy int64, int32 / float / numpy float64), through the constructor (keyword, positional),
+    #         copies and the static helper (keyword, positional); and the falsy OUTPUT value: every output 0, in every scalar type
+    fhows = ("ctor", "ctor-pos", "static-ints", "static-pos-ints", "static-none", "copy-before-def", "static-qubit-objs", "ctor-label")
+    j = r.randrange(8)
+    for n in (2, 3):
+        for N in (0, 1, 2):
+            for optform in NFORMS:
+                for rep_ in range(2):
+                    j += 1
+                    m = r.randint(2, 2 ** n)
+                    top = r.randint(2, 5) if (N == 0 or rep_) else N            # rep_ = 1: N' decided by max s - 1, else by N (N >= 1)
+                    sv = [r.randrange(top + 1) for _ in range(m - 1)] + [top]
+                    r.shuffle(sv)
+                    how = fhows[j % len(fhows)]
+                    div_case(ctx, "flagforms: n_output_values 0 / 1 / 2 in each numeric form", pts(n, m), sv, N, optform=optform, how=how,
+                             wires=_div_wires(r, how, 2 * n + 1))
+        for stype in SCALARS:
+            for N in (1, 3):
+                j += 1
+                m = r.randint(2, 2 ** n)
+                how = fhows[j % len(fhows)]
+                div_case(ctx, "flagforms: every output 0", pts(n, m), [0] * m, N, stype=stype, optform=list(NFORMS)[j % len(NFORMS)], how=how,
+                         wires=_div_wires(r, how, 2 * n + 1))
     # ---- 5. sizes: n = 2, 3, 4 with m = 1, 2, 3, 2^n through the static helper with every keyword set
     for n in (2, 3, 4):
         for m in (1, 2, 3, 2 ** n):
